@@ -946,6 +946,53 @@ Proof.
     rewrite (map_nth (fun row => nth r row c0) Y [] c). reflexivity.
 Qed.
 
+(* ---- the frequency-domain entry point fshift(W, s, ns=n) ---- *)
+Local Notation rfft_list := (rfft_list C c0 cadd cmul n w).
+Local Notation irfft_list := (irfft_list C c0 c1 cadd cmul cinv cconj n w).
+Local Notation fshift_freq := (fshift_freq C c0 cmul n).
+
+Lemma rfft_list_length x : length (rfft_list x) = (n / 2 + 1)%nat.
+Proof. unfold Model.rfft_list. now rewrite map_length, seq_length. Qed.
+
+(* irfft(fshift(rfft(x), s, ns=n), n) is fshift(x, s): the time-domain path IS the
+   frequency-domain path between an rfft and an irfft, and they refuse together *)
+Lemma fshift1_via_freq p x : length x = n ->
+  fshift1 p x = option_map irfft_list (fshift_freq p (rfft_list x)).
+Proof.
+  intros Hx. unfold Model.fshift1, Model.fshift_freq.
+  rewrite rfft_list_length, Hx, !Nat.eqb_refl.
+  destruct (2 <=? n)%nat; cbn [andb]; [|reflexivity].
+  destruct (length p =? n / 2 + 1)%nat; reflexivity.
+Qed.
+
+Lemma fshift_freq_spec p W k : (2 <= n)%nat -> length W = (n / 2 + 1)%nat ->
+  length p = (n / 2 + 1)%nat -> (k <= n / 2)%nat ->
+  exists Y, fshift_freq p W = Some Y /\ length Y = (n / 2 + 1)%nat /\ nthC Y k = nthC W k * nthC p k.
+Proof.
+  intros H2 HW Hp Hk. unfold Model.fshift_freq. rewrite HW, Hp, !Nat.eqb_refl.
+  destruct (Nat.leb_spec 2 n); [|lia]. cbn [andb]. eexists. split; [reflexivity|]. split.
+  - unfold Model.spec_mul. now rewrite map_length, seq_length.
+  - unfold Model.spec_mul. unfold Model.nthC at 1. rewrite nth_map_seq by lia. reflexivity.
+Qed.
+
+(* ---- cross spectrum of a signal and its shifted copy (get_apf_from2spikes, the exact
+        core of wave_shift_phase): every bin strictly between DC and Nyquist carries the
+        power |X_k|^2 times the CONJUGATE phase factor - its angle is +2 pi k s / n ---- *)
+Local Notation xspec := (cross_spectrum_at C c0 cadd cmul cconj n w).
+
+Lemma cross_spectrum_shifted p x k : real_sig x -> (k < n)%nat ->
+  xspec x (fshift p x) k = (rfft x k * cconj (rfft x k)) * cconj (Pext p k).
+Proof.
+  intros Hx Hk. unfold cross_spectrum_at. rewrite rfft_fshift by assumption.
+  rewrite conj_mul. ring.
+Qed.
+
+Lemma cross_spectrum_shifted_low p x k : real_sig x -> (0 < k)%nat -> (2 * k < n)%nat ->
+  xspec x (fshift p x) k = (rfft x k * cconj (rfft x k)) * cconj (p k).
+Proof.
+  intros Hx H0 H1. rewrite cross_spectrum_shifted by (auto; lia). now rewrite Pext_low.
+Qed.
+
 End DFT.
 
 Unset Default Proof Using.
@@ -1069,6 +1116,22 @@ Proof. use fshift_harmonic. Qed.
 
 Lemma pub_constant p c j : cconj c = c -> p 0%nat = c1 -> fshift p (fun _ => c) j = c.
 Proof. use fshift_constant. Qed.
+
+Lemma pub_via_freq p x : length x = n ->
+  fshift1 p x = option_map (irfft_list C c0 c1 cadd cmul cinv cconj n w)
+                           (fshift_freq C c0 cmul n p (rfft_list C c0 cadd cmul n w x)).
+Proof. use fshift1_via_freq. Qed.
+
+Lemma pub_freq_spec p W k : (2 <= n)%nat -> length W = (n / 2 + 1)%nat ->
+  length p = (n / 2 + 1)%nat -> (k <= n / 2)%nat ->
+  exists Y, fshift_freq C c0 cmul n p W = Some Y /\ length Y = (n / 2 + 1)%nat /\
+            nthC Y k = cmul (nthC W k) (nthC p k).
+Proof. use fshift_freq_spec. Qed.
+
+Lemma pub_cross_low p x k : real x -> (0 < k)%nat -> (2 * k < n)%nat ->
+  cross_spectrum_at C c0 cadd cmul cconj n w x (fshift p x) k
+  = cmul (cmul (rfft x k) (cconj (rfft x k))) (cconj (p k)).
+Proof. use cross_spectrum_shifted_low. Qed.
 
 Section PubPhase.
 Variable Sh : Type.
@@ -1464,6 +1527,108 @@ Proof.
     rewrite (Hb l Hl). unfold inr.
     destruct ((0 <=? zn l - m) && (zn l - m <? zn N)); ring. }
   split; [exact Hpk|]. intros i. rewrite Hpk. pose proof (xc_bound N a b i). lia.
+Qed.
+
+(* ---- equality case of Cauchy-Schwarz: the peak is unique ---- *)
+Lemma zsum_nonneg_zero f m : (forall i, (i < m)%nat -> 0 <= f i) -> zsum f m <= 0 ->
+  forall i, (i < m)%nat -> f i = 0.
+Proof.
+  induction m as [|m IH]; intros Hf Hs i Hi; [lia|]. rewrite zsum_S in Hs.
+  assert (H0 : 0 <= zsum f m).
+  { pose proof (zsum_le (fun _ => 0) f m ltac:(intros j Hj; apply Hf; lia)) as H.
+    now rewrite zsum_zero in H. }
+  pose proof (Hf m ltac:(lia)) as Hm.
+  destruct (Nat.eq_dec i m) as [->|Hne]; [lia|].
+  apply IH; try lia. intros j Hj. apply Hf. lia.
+Qed.
+
+(* an entry that reaches the mean of the two energies forces b to be a advanced by its lag *)
+Lemma xc_equality N a b i :
+  zsum (fun l => a l * a l) N + zsum (fun l => b l * b l) N <= 2 * xc N a b i ->
+  forall l, (l < N)%nat ->
+    if inr N (zn l + (zn i - zn (N / 2)))
+    then a (Z.to_nat (zn l + (zn i - zn (N / 2)))) = b l else b l = 0.
+Proof.
+  intros Hge. set (d := zn i - zn (N / 2)).
+  assert (E : xc N a b i = zsum (fun l => if inr N (zn l + d) then a (Z.to_nat (zn l + d)) * b l else 0) N).
+  { unfold xcorr_same_at. apply zsum_ext. intros l Hl. cbv zeta. unfold inr, d.
+    replace (zn l + (zn i - zn (N / 2))) with (zn l + zn i - zn (N / 2)) by lia. reflexivity. }
+  pose proof (reindex_le (fun l => a l * a l) N N d ltac:(intros; nia)) as Hr. cbv beta in Hr.
+  set (G := fun l => if inr N (zn l + d) then a (Z.to_nat (zn l + d)) * a (Z.to_nat (zn l + d)) else 0) in *.
+  set (T := fun l => if inr N (zn l + d) then a (Z.to_nat (zn l + d)) * b l else 0) in *.
+  set (sl := fun l => (G l + b l * b l) + (-2) * T l).
+  assert (Hsum : zsum sl N = zsum G N + zsum (fun l => b l * b l) N + (-2) * zsum T N).
+  { unfold sl. rewrite zsum_add, zsum_add, zsum_scale. reflexivity. }
+  assert (Hnn : forall l, (l < N)%nat -> 0 <= sl l).
+  { intros l Hl. unfold sl, G, T. destruct (inr N (zn l + d)).
+    - pose proof (Z.square_nonneg (a (Z.to_nat (zn l + d)) - b l)). nia.
+    - pose proof (Z.square_nonneg (b l)). nia. }
+  assert (Hle : zsum sl N <= 0) by (rewrite Hsum; rewrite E in Hge; lia).
+  intros l Hl. pose proof (zsum_nonneg_zero sl N Hnn Hle l Hl) as H0.
+  unfold sl, G, T in H0. destruct (inr N (zn l + d)).
+  - assert (Hsq : (a (Z.to_nat (zn l + d)) - b l) * (a (Z.to_nat (zn l + d)) - b l) = 0) by nia.
+    apply Z.mul_eq_0 in Hsq. lia.
+  - assert (Hsq : b l * b l = 0) by nia. apply Z.mul_eq_0 in Hsq. lia.
+Qed.
+
+(* autocorrelation: every entry other than the zero-lag one is STRICTLY below the energy *)
+Lemma autocorr_strict N a i : (i < N)%nat -> i <> (N / 2)%nat ->
+  0 < zsum (fun l => a l * a l) N -> xc N a a i < zsum (fun l => a l * a l) N.
+Proof.
+  intros Hi Hne HE. destruct (Z_lt_ge_dec (xc N a a i) (zsum (fun l => a l * a l) N)) as [|Hge]; [assumption|].
+  exfalso.
+  pose proof (xc_equality N a a i ltac:(lia)) as Heq.
+  set (d := zn i - zn (N / 2)) in *.
+  assert (Hz : forall l, (l < N)%nat -> a l = 0).
+  { destruct (Z_lt_ge_dec 0 d) as [Hd|Hd].
+    - assert (Hk : forall k l, (l < N)%nat -> (N - l <= k)%nat -> a l = 0).
+      { induction k as [|k IH]; intros l Hl Hk; [lia|].
+        specialize (Heq l Hl). unfold inr in Heq.
+        destruct ((0 <=? zn l + d) && (zn l + d <? zn N)) eqn:E.
+        - apply andb_prop in E. destruct E as [E1 E2]. apply Z.leb_le in E1. apply Z.ltb_lt in E2.
+          rewrite <- Heq. apply IH; lia.
+        - exact Heq. }
+      intros l Hl. apply (Hk N l Hl). lia.
+    - assert (Hd' : d < 0) by (unfold d in *; lia).
+      assert (Hk : forall k l, (l <= k)%nat -> (l < N)%nat -> a l = 0).
+      { induction k as [|k IH]; intros l Hk Hl.
+        - specialize (Heq l Hl). unfold inr in Heq.
+          destruct ((0 <=? zn l + d) && (zn l + d <? zn N)) eqn:E; [|exact Heq].
+          apply andb_prop in E. destruct E as [E1 _]. apply Z.leb_le in E1. lia.
+        - destruct (Nat.eq_dec l (S k)) as [->|Hn]; [|apply IH; lia].
+          specialize (Heq (S k) Hl). unfold inr in Heq.
+          destruct ((0 <=? zn (S k) + d) && (zn (S k) + d <? zn N)) eqn:E; [|exact Heq].
+          apply andb_prop in E. destruct E as [E1 E2]. apply Z.leb_le in E1. apply Z.ltb_lt in E2.
+          rewrite <- Heq. apply IH; lia. }
+      intros l Hl. apply (Hk l l); lia. }
+  rewrite (zsum_ext _ (fun _ => 0)) in HE by (intros l Hl; rewrite (Hz l Hl); reflexivity).
+  rewrite zsum_zero in HE. lia.
+Qed.
+
+(* wave_shift_corrmax(x, x) on any non-flat integer waveform of any length: np.argmax of the
+   'same' correlation is exactly floor(N/2), i.e. the integer part of the delay is 0 *)
+Lemma autocorr_argmax (x : list Z) :
+  0 < zsum (fun l => nthC Z 0 x l * nthC Z 0 x l) (length x) ->
+  argmax Z Z.leb (xcorr_same Z 0 Z.add Z.mul x x) = Some (length x / 2)%nat /\
+  int_delay_of_peak (length x) (length x / 2) = 0.
+Proof.
+  intros HE. set (N := length x) in *.
+  assert (HN : (1 <= N)%nat) by (destruct N; [cbn in HE; lia|lia]).
+  assert (Hh : (N / 2 < N)%nat) by (apply Nat.div_lt; lia).
+  split; [|unfold int_delay_of_peak; lia].
+  assert (Hlen : length (xcorr_same Z 0 Z.add Z.mul x x) = N)
+    by (unfold xcorr_same; now rewrite map_length, seq_length).
+  assert (Hnth : forall i, (i < N)%nat ->
+            nth i (xcorr_same Z 0 Z.add Z.mul x x) 0 = xc N (nthC Z 0 x) (nthC Z 0 x) i).
+  { intros i Hi. unfold xcorr_same. fold N. now apply nth_map_seq0. }
+  destruct (argmax Z Z.leb (xcorr_same Z 0 Z.add Z.mul x x)) as [i|] eqn:E.
+  - f_equal.
+    destruct (argmax_spec Z 0 Z.leb zle_refl zle_trans zle_total _ _ E) as (Hlt & Hall & _).
+    rewrite Hlen in *. specialize (Hall (N / 2)%nat Hh). apply Z.leb_le in Hall.
+    rewrite !Hnth in Hall by assumption. rewrite xc_zero_lag in Hall.
+    destruct (Nat.eq_dec i (N / 2)) as [|Hne]; [assumption|].
+    pose proof (autocorr_strict N (nthC Z 0 x) i Hlt Hne HE). lia.
+  - apply argmax_none in E. rewrite E in Hlen. cbn in Hlen. lia.
 Qed.
 
 End XCorrZ.
